@@ -1117,7 +1117,7 @@ class SP(Robot):
         """
         for num in range(6):
             newTJ = fsr.mirror(self.getBottomT() @
-                tm([0, 0, -self.bottom_plate_thickness, 0, 0, 0]),
+                tm([0, 0, self.bottom_plate_thickness, 0, 0, 0]),
                 tm([self._top_joints_space[0, num],
                 self._top_joints_space[1, num],
                 self._top_joints_space[2, num], 0, 0, 0]))
@@ -1126,7 +1126,7 @@ class SP(Robot):
             self._top_joints_space[2, num] = newTJ[2]
             self.lengths[num] = fsr.distance(
                 self._top_joints_space[:, num], self._bottom_joints_space[:, num])
-        top_true = fsr.mirror(self.getBottomT() @ tm([0, 0, -self.bottom_plate_thickness, 0, 0, 0]),
+        top_true = fsr.mirror(self.getBottomT() @ tm([0, 0, self.bottom_plate_thickness, 0, 0, 0]),
             self.getTopT() @ tm([0, 0, -self.top_plate_thickness, 0, 0, 0]))
         top_true[3:6] = self.getTopT()[3:6] * -1
         self._end_effector_pos_global = top_true @ tm([0, 0, self.top_plate_thickness, 0, 0, 0])
